@@ -3,6 +3,7 @@ mod common;
 mod fixtures;
 mod refmodel;
 mod scen_blind;
+mod scen_burst;
 mod scen_codec;
 mod scen_conform;
 mod scen_domain;
